@@ -138,8 +138,8 @@ fn phases(quick: bool, arg: &dyn Fn(&str) -> Option<u64>) -> Vec<Phase> {
     let mut ev = adv(&ds);
     ev.extend(issues.iter().copied());
     ev.push(Ev::Deliver);
-    let al = vec![o(Set::Err, 0), o(Set::P1, 0), o(Set::P2, 0), o(Set::P12, 0), o(Set::P123, 0)];
-    v.push(Phase { name: "issues", what: "all issue kinds, Deliver, clock advances incl. 1801 s (> 20 half-lives) x lookup outcomes {Err, Ok{p1}, Ok{p2}, Ok{p1,p2}, Ok{p1,p2,p3}} all far-expiry; advances {1,4,11,41,91,1801}", events: ev, alphabet: al, max_depth: arg("--depth-issues").unwrap_or(if quick { 3 } else { 5 }) as usize, share: 0.25 });
+    let al = vec![o(Set::Err, 0), o(Set::P1, 0), o(Set::P2, 0), o(Set::P12, 0), o(Set::P123, 0), o(Set::P163, 0)];
+    v.push(Phase { name: "issues", what: "all issue kinds, Deliver, clock advances incl. 1801 s (> 20 half-lives) x lookup outcomes {Err, Ok{p1}, Ok{p2}, Ok{p1,p2}, Ok{p1,p2,p3}, Ok{p1,p6,p3}} all far-expiry; advances {1,4,11,41,91,1801}", events: ev, alphabet: al, max_depth: arg("--depth-issues").unwrap_or(if quick { 3 } else { 5 }) as usize, share: 0.25 });
     // 4. issue memory: one issue re-reported inside / outside the dedup window, distinct issues; tiny alphabet, deep
     let ev = vec![Ev::Adv(1), Ev::Adv(4), Ev::Issue(0), Ev::Issue(2), Ev::Issue(3), Ev::Issue(5), Ev::Deliver];
     v.push(Phase { name: "issue-memory", what: "Issue(0,2,3,5), Deliver, Adv(1) (inside the 3 s dedup window), Adv(4) (outside); lookups Ok{p1,p2} far", events: ev, alphabet: vec![o(Set::P12, 0)], max_depth: arg("--depth-mem").unwrap_or(if quick { 5 } else { 7 }) as usize, share: 0.1 });
@@ -169,7 +169,7 @@ pub fn run(args: &vpc::Args) -> ! {
             vpc::machinery_failure("universe builder: expiry is not what was asked for");
         }
     }
-    if fp_table().len() != UNIVERSE.len() {
+    if fp_table().len() != UNIVERSE.len() - 2 || (0..UNIVERSE.len()).any(|i| identify(&mk_path(i, T0 + 5)) != Some(i)) {
         vpc::machinery_failure("universe builder: fingerprints collide");
     }
 
@@ -216,6 +216,7 @@ pub fn run(args: &vpc::Args) -> ! {
         agg.tie_points += s.tie_points;
         agg.recover_selected += s.recover_selected;
         agg.quiet_ticks += s.quiet_ticks;
+        agg.steer_stale_report += s.steer_stale_report;
     };
 
     let phases = phases(quick, &arg);
@@ -333,6 +334,7 @@ pub fn run(args: &vpc::Args) -> ! {
     run.outcome_n("steering impossible (no cached alternative avoids the interface)", agg.steer_no_alternative as u64);
     run.outcome_n("Deliver of reports lying on no cached path", agg.unrelated_deliver as u64);
     run.outcome_n("reports ignored by the dedup window", agg.dedup_ignored as u64);
+    run.outcome_n("report on the slot's path consumed more than 30 s after it was made (no steering demanded)", agg.steer_stale_report as u64);
     run.outcome_n("p1/p2 ranking tie points", agg.tie_points as u64);
     run.outcome_n("maintenance ticks without lookup (due before next_refetch)", agg.quiet_ticks as u64);
     run.outcome_n("slot moved onto a path whose penalty is older than a half-life", agg.recover_selected as u64);
@@ -361,6 +363,7 @@ pub fn run(args: &vpc::Args) -> ! {
             "inside one advance only the first tick branches over the outcome alphabet, later ticks of the same advance repeat that outcome re-stamped (all tick sequences remain reachable through shorter advances)",
             "states are merged on a key of subject state relative to now (scores rounded to 1e-3, issue ages clamped at 600 s); the oracles' reference memory is not part of the key",
             "backoff jitter 0; idle period effectively infinite; one (src,dst) pair",
+            "C07 steering is demanded for reports consumed within 30 s (the cached-issue half-life) of being made; the explorer can hold a report back longer (starved worker), which demands nothing",
             "p1/p2 ranking ties are resolved by the crate through HashMap iteration order (RandomState); the explorer branches on both orders and re-executes until the real object shows the requested one",
         ],
     )
